@@ -25,13 +25,27 @@ def lineOf (j : Json) : Except String Line := do
     | "other", [] => return .other
     | _, _ => err s!"bad line {j.compress}"
 
-def obsJson (table : List String) (o : AtomObs) : Json :=
+/-- `["elems", [..]] | ["explicit", el]` -/
+def sfacInstrOf (j : Json) : Except String SfacInstr := do
+  match ← arr j with
+  | [k, v] =>
+    match ← str k with
+    | "elems" => return .elems (← strs v)
+    | "explicit" => return .explicit (← str v)
+    | _ => err "bad SFAC instruction"
+  | _ => err "bad SFAC instruction"
+
+/-- `table` = (model table, spec table) -/
+def elJson (table : List String × List String) (o : AtomObs) : Json :=
+  Json.mkObj [("el", Json.str (sfac2elem table.1 o.sfac)),
+    ("el_spec", match specElement table.2 o.sfac with | some e => Json.str e | none => Json.null)]
+
+def obsJson (table : List String × List String) (o : AtomObs) : Json :=
   Json.mkObj [("tag", ofNat o.tag), ("sfac", ofInt o.sfac), ("sof", ofRat o.sof), ("u", ofRats o.uvals),
     ("part", ofInt o.part), ("afix", ofInt o.afix), ("rnum", ofInt o.resiNum), ("rcls", Json.str o.resiCls),
-    ("q", Json.bool o.qpeak), ("el", Json.str (sfac2elem table o.sfac)),
-    ("el_spec", match specElement table o.sfac with | some e => Json.str e | none => Json.null)]
+    ("q", Json.bool o.qpeak)] |>.mergeObj (elJson table o)
 
-def optObs (table : List String) : Option AtomObs → Json
+def optObs (table : List String × List String) : Option AtomObs → Json
   | some o => obsJson table o
   | none => Json.null
 
@@ -84,7 +98,8 @@ def handle (j : Json) : Except String Json := do
   match op with
   | "file" =>
     let lines ← (← arrField j "lines").mapM lineOf
-    let table ← field j "sfac" >>= strs
+    let instrs ← (← arrField j "sfac_lines").mapM sfacInstrOf
+    let table := (sfacTable instrs, specSfacTable instrs)
     let classes ← field j "classes" >>= strs
     let m := observe (run lines)
     let b := observe (runBug lines)
@@ -94,8 +109,8 @@ def handle (j : Json) : Except String Json := do
       ("model", Json.arr (m.map (optObs table)).toArray),
       ("spec", Json.arr (sp.map (obsJson table)).toArray),
       ("before_fix", Json.arr (b.map (optObs table)).toArray),
-      ("model_views", viewsJson table classes mOk),
-      ("spec_views", viewsJson table classes sp)]
+      ("model_views", viewsJson table.1 classes mOk),
+      ("spec_views", viewsJson table.2 classes sp)]
   | "resi" =>
     let toks ← (← field j "toks" >>= strs).mapM rtokOf
     return Json.mkObj [("model", resiJson (resiDecode toks)), ("spec", resiJson (resiSpec toks)),
